@@ -15,6 +15,7 @@ structure Router where
   closed : Bool := false
   created : Nat := 0                            -- realms created so far (separates publication placeholders)
   template : Option Config := none              -- `Config.RealmTemplate`: realms are created on demand from it
+  now : Nat := 0                                -- the clock, shared by all realms: a realm created later starts at the current time
   deriving Inhabited
 
 inductive ROp where
@@ -90,7 +91,7 @@ def step (rt : Router) : ROp → RObserved × Router
       match rt.realm? name, rt.template with
       | none, some t =>
         match Realm.create { t with uri := name } with
-        | some r => { rt with realms := rt.realms ++ [(name, { r with pubCount := rt.created * 1000000 })],
+        | some r => { rt with realms := rt.realms ++ [(name, { r with pubCount := rt.created * 1000000, now := rt.now })],
                               created := rt.created + 1 }
         | none => rt
       | _, _ => rt
@@ -111,7 +112,7 @@ def step (rt : Router) : ROp → RObserved × Router
   | .tick ms =>
     rt.realms.foldl (fun (acc : RObserved × Router) p =>
       let (o, r) := p.2.step (.tick ms)
-      (merge acc.1 o, acc.2.setRealm p.1 r)) ({}, rt)
+      (merge acc.1 o, acc.2.setRealm p.1 r)) ({}, { rt with now := rt.now + ms })
   | .rnd n =>
     ({}, { rt with realms := rt.realms.map (fun p => (p.1, { p.2 with rnd := n })) })
   | .close =>
@@ -125,7 +126,7 @@ def step (rt : Router) : ROp → RObserved × Router
   | .addRealm cfg =>
     if rt.closed || rt.realms.any (fun p => p.1 == cfg.uri) then ({ refused := true }, rt)
     else match Realm.create cfg with
-      | some r => ({}, { rt with realms := rt.realms ++ [(cfg.uri, { r with pubCount := rt.created * 1000000 })],
+      | some r => ({}, { rt with realms := rt.realms ++ [(cfg.uri, { r with pubCount := rt.created * 1000000, now := rt.now })],
                                  created := rt.created + 1 })
       | none => ({ refused := true }, rt)
 
